@@ -139,8 +139,13 @@ class Check:
         # 2. violations: known classes vs new
         new = [v for v in self.violations if not v.get("cls")]
         seen_new = {}
+        per_kind = {}
         for v in new:
-            key = (v.get("prop"), v.get("kind"), v.get("alg"), v.get("site"), v.get("label"))
+            k0 = (v.get("prop"), v.get("kind"), v.get("alg"), v.get("site"))
+            per_kind[k0] = per_kind.get(k0, 0) + 1
+            if per_kind[k0] > 2:  # at most two witnesses per (call site, failure kind) are replayed and reported
+                continue
+            key = k0 + (per_kind[k0],)
             seen_new.setdefault(key, v)
         reported = 0
         for key, v in seen_new.items():
